@@ -93,15 +93,20 @@ fn fam_cfg(ctx: &mut Ctx, f: &Fam) -> (Vec<u64>, u64) {
     }
 }
 
-fn feed(ctx: &mut Ctx, f: &Fam, id: u64, keys: &[u64]) -> bool {
-    let mut ok = true;
+/// feeds the keys; returns the keys whose insert/add succeeded (a failed insert is a no-op, C12)
+fn feed_ok(ctx: &mut Ctx, f: &Fam, id: u64, keys: &[u64]) -> Vec<u64> {
+    let mut okk = vec![];
     for k in keys {
         let a = ctx.op(format!("{} {} {}", f.add, id, k));
-        if a == "full" || a == "panic" {
-            ok = false;
+        if a != "full" && a != "panic" && a != "poisoned" {
+            okk.push(*k);
         }
     }
-    ok
+    okk
+}
+
+fn feed(ctx: &mut Ctx, f: &Fam, id: u64, keys: &[u64]) -> bool {
+    feed_ok(ctx, f, id, keys).len() == keys.len()
 }
 
 fn observe_both(ctx: &mut Ctx, f: &Fam, i: u64, j: u64, univ: &[u64]) {
@@ -120,6 +125,7 @@ fn stream(ctx: &mut Ctx, univ: &[u64], n: u64) -> Vec<u64> {
 }
 
 pub fn gen_c06(ctx: &mut Ctx) {
+    gen_c06_cuckoo_loaded(ctx, 40 * ctx.tier_scale);
     for round in 0..(16 * ctx.tier_scale) {
         for f in FAMS {
             ctx.case(&format!("c06.{}", f.name));
@@ -146,14 +152,22 @@ pub fn gen_c06(ctx: &mut Ctx) {
                 fam_new(ctx, f, id, &cfg);
             }
             // 1 = A, 2 = B, 3 = reference (A then B), 4 = snapshot of B, 5 = B.merge(A)
-            let mut ok = feed(ctx, f, 1, &sa);
-            ok &= feed(ctx, f, 2, &sb);
-            ok &= feed(ctx, f, 3, &sa);
+            // failed inserts (cuckoo / quotient Full) are no-ops: the reference receives exactly the
+            // keys that A and B accepted
+            let sa = feed_ok(ctx, f, 1, &sa);
+            let sb = feed_ok(ctx, f, 2, &sb);
+            let mut ok = feed(ctx, f, 3, &sa);
             ok &= feed(ctx, f, 3, &sb);
             ok &= feed(ctx, f, 5, &sb);
             ok &= feed(ctx, f, 6, &sa);
             if !ok {
-                ctx.stat("c06.stream.full", 1);
+                // the reference itself ran out of room: nothing to compare against, but the union
+                // must then not succeed with fewer elements than both streams hold
+                ctx.stat("c06.reference.full", 1);
+                ctx.op(format!("{} 1 2", f.merge));
+                for o in f.obs {
+                    ctx.op(format!("{} 1", o));
+                }
                 continue;
             }
             ctx.op(format!("{}.clone 2 4", f.name));
@@ -191,6 +205,39 @@ pub fn gen_c06(ctx: &mut Ctx) {
                 observe_both(ctx, f, 3, 6, &keys.univ);
             }
         }
+    }
+}
+
+/// cuckoo unions into a well-filled receiver: transferred fingerprints meet full buckets, so the
+/// alternate bucket computed from the slot position (`counter / bucketsize`) matters
+pub fn gen_c06_cuckoo_loaded(ctx: &mut Ctx, ncases: u64) {
+    let f = &FAMS[4];
+    for _ in 0..ncases {
+        ctx.case("c06.cuckoo.loaded");
+        let bh = ctx.rand_hasher();
+        ctx.hasher(bh);
+        let c = CuckooCfg { bs: *ctx.rng.pick(&[2u64, 2, 3, 4]), nb: 1u64 << ctx.rng.range(1, 4), lf: *ctx.rng.pick(&[4u64, 8, 16, 64]) };
+        let cap = c.bs * c.nb;
+        let cfg = vec![c.bs, c.nb, c.lf];
+        let keys = Keys::new(ctx, 4 * cap + 5);
+        for id in 1..=4 {
+            fam_new(ctx, f, id, &cfg);
+        }
+        let na = cap / 2 + ctx.rng.below(cap / 3 + 1);
+        let nb = 1 + ctx.rng.below(cap / 3 + 1);
+        let sa = stream(ctx, &keys.univ, na);
+        let sb = stream(ctx, &keys.univ, nb);
+        let sa = feed_ok(ctx, f, 1, &sa);
+        let sb = feed_ok(ctx, f, 2, &sb);
+        let ok = feed(ctx, f, 3, &sa) && feed(ctx, f, 3, &sb);
+        ctx.op("cuckoo.clone 2 4".into());
+        let a = ctx.op("cuckoo.union 1 2".into());
+        ctx.stat(&format!("c06.cuckoo.loaded.union.{}", a), 1);
+        if a == "ok" && ok {
+            ctx.stat("c06.cuckoo.loaded.compared", 1);
+            observe_both(ctx, f, 1, 3, &keys.univ);
+        }
+        observe_both(ctx, f, 2, 4, &keys.univ);
     }
 }
 
